@@ -15,7 +15,9 @@ import (
 
 // verifStatusWrite appends one line per rewrite of a status record to the file named by $VERIF_STATUS_LOG:
 //
-//	pid file oldState oldStdoutSize newState newStdoutSize
+//	pid file oldState oldStdoutSize newState newStdoutSize unixNano "detail"
+//
+// (oldState -1: whole-record Save; -2: the update found no stored record)
 //
 // It is called while the status file lock is held, so the lines of one unit are totally ordered. It exists only in
 // builds with the "verif" tag (external verification harness; see /verif).
@@ -29,7 +31,7 @@ func verifStatusWrite(filename string, oldState int, oldSize int64, newState int
 		return
 	}
 	defer f.Close()
-	fmt.Fprintf(f, "%d %s %d %d %d %d %q\n", os.Getpid(), filename, oldState, oldSize, newState, newSize, detail)
+	fmt.Fprintf(f, "%d %s %d %d %d %d %d %q\n", os.Getpid(), filename, oldState, oldSize, newState, newSize, time.Now().UnixNano(), detail)
 }
 
 var (
